@@ -54,6 +54,18 @@ def parseRounds : List (List String) → Option (List (List Msg × Bool))
       pure (script msgs (optNat failAt) :: rs)
     | [] => none
 
+def parseFTys (s : String) : List FTy :=
+  if s == "-" then [] else s.toList.map fun c => if c == 'T' then .time else if c == 'I' then .int else if c == 'U' then .union else .other
+
+def srcSchema (timeField noRetr tys : String) : Schema :=
+  { fields := (parseFTys tys).zipIdx.map fun (t, i) => (s!"f{i}", t), timeField := timeField.toInt?.getD 0, noRetr := noRetr == "1" }
+
+def renderSchema : Option Schema → String
+  | none => "err:schema"
+  | some sc =>
+    String.intercalate " " (["ok", toString sc.timeField, if sc.noRetr then "1" else "0"] ++
+      sc.fields.map fun (n, t) => n ++ ":" ++ (match t with | .time => "T" | .int => "I" | .union => "U" | .other => "?"))
+
 /-- model side: the same line the Go driver prints -/
 def model (toks : List String) : String :=
   match splitBar toks with
@@ -74,6 +86,10 @@ def model (toks : List String) : String :=
   -- `Materialize` reads `args["poll_interval"].Expression.Expression` although the matcher declares a descriptor:
   -- with a descriptor argument `.Expression` is nil and the dereference panics
   | [["pollinterval", _]] => "panic"
+  | [["schema", "tumble", mode, idx, tf, nr, tys]] =>
+    renderSchema (tumbleSchema (if mode == "tf" then some ("f" ++ idx) else none) (srcSchema tf nr tys))
+  | [["schema", "poll", tf, nr, tys]] => renderSchema (some (pollSchema (srcSchema tf nr tys)))
+  | [["schema", "range"]] => renderSchema (some rangeSchema)
   | _ => "bad-op"
 
 /-! ## the oracle -/
@@ -251,9 +267,11 @@ def judgePoll (rounds : List (List Msg × Bool)) (budget : Option Nat) (status :
 
 /-- property oracle on what the implementation printed -/
 def judge (toks : List String) (out : List String) : String :=
-  match out with
-  | [] => "bad empty-impl-output"
-  | status :: stream =>
+  match toks, out with
+  | "schema" :: _, _ => "ok"            -- declared schemas: correspondence only
+  | "pollinterval" :: _, _ => "ok"      -- a crash at Materialize, not a stream: outside C21's statement (C07)
+  | _, [] => "bad empty-impl-output"
+  | _, status :: stream =>
     match parseMsgs stream with
     | none => "bad unparsable-impl-output"
     | some outMsgs =>
@@ -272,7 +290,6 @@ def judge (toks : List String) (out : List String) : String :=
         match parseRounds secs with
         | some rounds => judgePoll rounds (optNat budget) status outMsgs
         | none => "bad unparsable-op"
-      | [["pollinterval", _]] => "ok"     -- a crash, not a stream: outside C21's statement (C07)
       | _ => "bad unknown-op"
 
 end Octo.Drv.C21
